@@ -40,6 +40,9 @@ def cases(tier, seed):
             yield {"kind": "cor", "cols": t, "model": model, "draws": 1, "tier": tier}
     for t in tabs[::3]:
         yield {"kind": "cor", "cols": t, "model": "accum", "draws": 1, "tier": tier}
+    for t in tabs[1::4]:
+        for model in ("offset", "offsetlin"):
+            yield {"kind": "cor", "cols": t, "model": model, "draws": 1, "tier": tier}
     for t in tabs[::max(1, len(tabs) // bounds(tier)["draws2_tables"])][:bounds(tier)["draws2_tables"]]:
         yield {"kind": "cor", "cols": t, "model": "linear", "draws": 2, "tier": tier}
     yield {"kind": "conformance"}
@@ -76,6 +79,13 @@ def _model(name):
                     return self.lr_.predict(numpy.asarray(X, dtype=float))
             _ACC.append(AccumulatingLinear)
         return _ACC[0]()
+    if name == "offset":
+        # predictions far from the data (a constant 1e9): entries must still lie in [0, 1]
+        from sklearn.dummy import DummyRegressor
+        return DummyRegressor(strategy="constant", constant=1.0e9)
+    if name == "offsetlin":
+        from sklearn.compose import TransformedTargetRegressor
+        return TransformedTargetRegressor(regressor=LinearRegression(), func=lambda v: v, inverse_func=lambda v: v + 1.0e9, check_inverse=False)
     return LinearRegression() if name == "linear" else DecisionTreeRegressor(max_depth=2, random_state=0)
 
 
